@@ -278,8 +278,10 @@ def verify(targets, cfg, out, fails, agg=None):
                         if ''.join(x) in pool:
                             hit += 1
                     if tot and (hit / tot) ** MAX_ATTEMPTS < 1e-9:
-                        fails.append((f'collision-avoidable/{en}', tset if n <= 2 else (t,),
-                                      ('collision', d, t, hit, tot)))
+                        # property C20 does not say that a decoy must differ from every target / other decoy (the retry is a
+                        # mechanism, not part of the statement): counted as an observation, never reported as a violation
+                        OBS['decoy-coincides-with-a-target-or-decoy-although-avoidable'] = \
+                            OBS.get('decoy-coincides-with-a-target-or-decoy-although-avoidable', 0) + 1
             if agg is not None:
                 # does shuffle ever move a free terminal residue?
                 for name, pos in (('first', 0), ('last', len(t) - 1)):
@@ -289,6 +291,9 @@ def verify(targets, cfg, out, fails, agg=None):
                         if d[pos] != t[pos]:
                             a[1] += 1
     return nontriv
+
+
+OBS = {}
 
 
 def describe(x):
@@ -649,6 +654,7 @@ def main():
                     expected_decoy=sorted(accepted_reversals(t, 'trypsin', False, False, ''))))
     run.sample(dict(targets=['AC', 'CA'], cfg=cfg_dict(('shuffle', None, False, False, '', 1, 'target_first', 0)),
                     note='anagram pair: each decoy must avoid both targets and the other decoy'))
+    run.assume('whether a shuffled decoy may coincide with a target or with another decoy is not part of property C20 and is not judged')
     run.finish()
 
 
